@@ -38,6 +38,27 @@ MUTATIONS = [
      'for i in numba.prange(npartition // 2):', 'for i in numba.prange((npartition + 1) // 2):'),
     ('c07-odd-pass-wrong-slice', 'C07', 'abacusnbody/analysis/tsc.py',
      'ppart[starts[2 * i + 1] : starts[2 * i + 2]],', 'ppart[starts[2 * i] : starts[2 * i + 2]],'),
+    # ---- C02
+    ('c02-stale-dtype', 'C02', 'abacusnbody/data/compaso_halo_catalog.py', 'np.empty(len(rawhalos), dtype=src[field]), name=field, copy=False', 'np.empty(len(rawhalos), dtype=src[col]), name=field, copy=False'),
+    ('c02-index-cols-only-cleaned', 'C02', 'abacusnbody/data/compaso_halo_catalog.py', "        for AB in load_AB:\n            if 'npstart' + AB not in fields:", "        for AB in (load_AB if cleaned else []):\n            if 'npstart' + AB not in fields:"),
+    ('c02-dependency-order', 'C02', 'abacusnbody/data/compaso_halo_catalog.py', 'fields_with_deps = list(dict.fromkeys(iter_fields[::-1]))', 'fields_with_deps = list(dict.fromkeys(iter_fields))'),
+    ('c02-eigvec-sibling', 'C02', 'abacusnbody/data/compaso_halo_catalog.py', "            middle_field = m['rnv'] + 'Mid' + m['com']\n            if middle_field in halos.colnames:\n                columns[middle_field] = middle", "            middle_field = m['rnv'] + 'Mid' + m['com']\n            if middle_field in halos.colnames and minor_field not in halos.colnames:\n                columns[middle_field] = middle"),
+    ('c02-N-total-not-added', 'C02', 'abacusnbody/data/compaso_halo_catalog.py', "            if 'N_total' not in fields:\n                fields += ['N_total']", "            if 'N_total' not in fields and len(fields) > 1:\n                fields += ['N_total']"),
+    # ---- C03
+    ('c03-per-file-count-not-updated', 'C03', 'abacusnbody/data/compaso_halo_catalog.py', '            N_halo_per_file[i] = N_superslab\n', ''),
+    ('c03-no-truncation', 'C03', 'abacusnbody/data/compaso_halo_catalog.py', '        self.halos = self.halos[:N_written]\n', ''),
+    ('c03-duplicates-allowed', 'C03', 'abacusnbody/data/compaso_halo_catalog.py', '                    if p == q:\n                        raise ValueError(', '                    if False:\n                        raise ValueError('),
+    ('c03-mixed-allowed', 'C03', 'abacusnbody/data/compaso_halo_catalog.py', "                if not groupdir == p.parents[1] and not halo_lc:\n                    raise ValueError(\"Can't mix files from different catalogs!\")", "                if False:\n                    raise ValueError(\"Can't mix files from different catalogs!\")"),
+    ('c03-filter-sees-raw-N', 'C03', 'abacusnbody/data/compaso_halo_catalog.py', "                if self.cleaned and not passthrough:\n                    halos.rename_column('N_total', 'N')\n\n                mask = self.filter_func(halos)", "                if self.cleaned and not passthrough and 'N' not in rawhalos.colnames:\n                    halos.rename_column('N_total', 'N')\n\n                mask = self.filter_func(halos) if 'N' in halos.colnames or not self.cleaned else self.filter_func(rawhalos)"),
+    ('c03-compaction-offset', 'C03', 'abacusnbody/data/compaso_halo_catalog.py', '                halos[:nmask] = halos[mask]', '                halos[:nmask] = halos[mask][::-1] if nmask == 2 else halos[mask]'),
+    ('c03-file-order-sorted', 'C03', 'abacusnbody/data/compaso_halo_catalog.py', '                halo_fns = path  # path is list of one or more files', '                halo_fns = sorted(path)  # path is list of one or more files'),
+    # ---- C05
+    ('c05-sigmav-box', 'C05', 'abacusnbody/data/compaso_halo_catalog.py', "                / INT16SCALE\n                * zspace_to_kms\n            )", "                / INT16SCALE\n                * box\n            )"),
+    ('c05-int16-scale', 'C05', 'abacusnbody/data/compaso_halo_catalog.py', 'INT16SCALE = 32000.0', 'INT16SCALE = 32768.0'),
+    ('c05-convert-off-still-scales', 'C05', 'abacusnbody/data/compaso_halo_catalog.py', '            box = 1.0\n            zspace_to_kms = 1.0', '            box = 1.0\n            zspace_to_kms = self.header[\'VelZSpace_to_kms\']'),
+    ('c05-so-radius-unscaled', 'C05', 'abacusnbody/data/compaso_halo_catalog.py', "pat = re.compile(r'SO(?:_L2max)?(?:_central_particle|_radius)')", "pat = re.compile(r'SO(?:_L2max)?(?:_central_particle)')\n        self.halo_field_loaders[re.compile(r'SO(?:_L2max)?_radius')] = lambda m, raw, halos: raw[m[0]]"),
+    ('c05-rvcirc-wrong-reference', 'C05', 'abacusnbody/data/compaso_halo_catalog.py', "            * raw['r100' + m['com']]\n            / INT16SCALE\n            * box\n        )\n\n        # sigmavMin", "            * raw['r100_com']\n            / INT16SCALE\n            * box\n        )\n\n        # sigmavMin"),
+    ('c05-lc-origin', 'C05', 'abacusnbody/data/compaso_halo_catalog.py', "lambda m, raw, halos: raw[m[0]] % 3", "lambda m, raw, halos: raw[m[0]] % 4"),
     # ---- C06
     ('c06-centre-weight', 'C06', 'abacusnbody/analysis/tsc.py', 'wy = P75 - dy**2', 'wy = P75 - dy'),
     ('c06-floor-not-round', 'C06', 'abacusnbody/analysis/tsc.py', 'iz = itype(round(pz))', 'iz = itype(pz)'),
